@@ -58,6 +58,8 @@ class Gen:
                 'plan': {}}
         if node['mode'] in ('inline', 'process', 'thread_tag', 'async_tagged') and self.rng.random() < 0.15:
             node['tag_style'] = 'str'       # tags spelled as plain strings
+        if self.rng.random() < 0.1:
+            node['factory'] = True          # the class has a default_factory that node objects must come from
         node.update(kw)
         self.nodes[nid] = node
         self.flags[nid] = set()
